@@ -202,8 +202,10 @@ Definition C40_mismatch (c : c40_case) : bool :=
                  repeats the recorded (lane, sequence, status); nothing changes;
      finalized   the lane is terminal, or the event id is the lane's last id:
                  the result is the stored lane (sequence, status); nothing changes;
-     applied     otherwise: the result's sequence is the message cursor + 1, it
-                 becomes the cursor and the lane's sequence, the status is
+     applied     otherwise: the result's sequence is the successor of the message
+                 cursor (cursor + 1; the 64-bit wrap of the code at 2^64-1, which
+                 no history reaches, is accepted), it becomes the cursor and the
+                 lane's sequence, the status is
                  terminal iff the event is a terminal event (close, error,
                  cancel, finish), and the event id gets its applied row.
 
@@ -236,14 +238,14 @@ Definition spec_append (g : DB) (hs : N) (terminal_event : bool) (r : Result) : 
         if (r_seq r =? st_seq s) && bytes_eqb (r_status r) (st_status s) then Some g else None
       else
         let cur := match get_cursor g hs c t m with Some cu => cu_seq cu | None => 0 end in
-        if (r_seq r =? cur + 1) && Bool.eqb (isMessageEventTerminal (r_status r)) terminal_event
+        if (r_seq r =? wrap_succ cur) && Bool.eqb (isMessageEventTerminal (r_status r)) terminal_event
         then Some (put_rows g hs (mkState c t m (r_key r) (r_status r) (r_seq r) id [] [] 0%Z snap_empty 0 [] 0%Z)
                             (mkCursor c t m (r_seq r) 0%Z)
                             (mkApplied c t m id (r_key r) (r_seq r) (r_status r) 0%Z))
         else None
     | None =>
       let cur := match get_cursor g hs c t m with Some cu => cu_seq cu | None => 0 end in
-      if (r_seq r =? cur + 1) && Bool.eqb (isMessageEventTerminal (r_status r)) terminal_event
+      if (r_seq r =? wrap_succ cur) && Bool.eqb (isMessageEventTerminal (r_status r)) terminal_event
       then Some (put_rows g hs (mkState c t m (r_key r) (r_status r) (r_seq r) id [] [] 0%Z snap_empty 0 [] 0%Z)
                           (mkCursor c t m (r_seq r) 0%Z)
                           (mkApplied c t m id (r_key r) (r_seq r) (r_status r) 0%Z))
@@ -305,8 +307,8 @@ Fixpoint meta_monitor (g : DB) (steps : list (MetaOp * MetaObs)) : N :=
 
 (* one reducer call:
      - finalized lane or repeated last id: not applied, state and cursor returned unchanged;
-     - applied: cursor, lane and result carry (cursor + 1); terminal status iff terminal event;
-       (cursor = 2^64-1 is outside the property: the sequence cannot increase) *)
+     - applied: cursor, lane and result carry the successor of the cursor; terminal status
+       iff terminal event *)
 Definition reduce_monitor (st : State) (st_exists : bool) (cu : Cursor) (cu_exists : bool) (e : Event)
            (o_st : State) (o_cu : Cursor) (o_did : bool) (o_res : Result) : N :=
   let cur := if cu_exists then cu_seq cu else 0 in
@@ -314,9 +316,8 @@ Definition reduce_monitor (st : State) (st_exists : bool) (cu : Cursor) (cu_exis
     if negb o_did && state_eqb o_st st && cursor_eqb o_cu cu
        && (r_seq o_res =? st_seq st) && bytes_eqb (r_status o_res) (st_status st) && state_eqb (r_state o_res) st
     then 0 else 1
-  else if cur =? u64max then 0
   else
-    if o_did && (cu_seq o_cu =? cur + 1) && (st_seq o_st =? cur + 1) && (r_seq o_res =? cur + 1)
+    if o_did && (cu_seq o_cu =? wrap_succ cur) && (st_seq o_st =? wrap_succ cur) && (r_seq o_res =? wrap_succ cur)
        && bytes_eqb (st_last_id o_st) (e_id e)
        && Bool.eqb (isMessageEventTerminal (st_status o_st)) (isMessageEventTerminalEvent (e_etype e))
        && bytes_eqb (r_status o_res) (st_status o_st)
@@ -428,16 +429,32 @@ Definition panic_monitor (cache : list CacheDump) (e : Event) (obs : NodeObs) : 
   | _ => 0
   end.
 
-Definition node_calls (chan_hs : list (bytes * N)) (obs : NodeObs) : list (N * Event * (Err * option Result)) :=
+(* the durable append calls recorded in the proposals of one step *)
+Definition proposal_calls (chan_hs : list (bytes * N)) (props : list Proposal) : list (N * Event * (Err * option Result)) :=
   flat_map (fun prop => map (fun er => (opt_or (assoc (e_channel (fst er)) chan_hs) 0, fst er,
                                         match snd er with Some r => (ENone, Some r) | None => (EOther, None) end)) prop)
-           (no_proposals obs).
+           props.
+
+Definition node_calls (chan_hs : list (bytes * N)) (obs : NodeObs) := proposal_calls chan_hs (no_proposals obs).
 
 (* a proposal is atomic: either every event has a result or none *)
 Definition proposal_atomic (prop : list (Event * option Result)) : bool :=
   forallb (fun er => is_some (snd er)) prop || forallb (fun er => negb (is_some (snd er))) prop.
 
 Definition max_code (a b : N) : N := if a =? 1 then 1 else if b =? 1 then 1 else N.max a b.
+
+(* the clauses that are not about the tables: finish (F1, F2), panics, and
+   "cache-only events (open, delta, snapshot) are not durable: they propose nothing" *)
+Definition clause_monitor (g : DB) (chan_hs : list (bytes * N)) (cache : list CacheDump) (op : NodeOp) (obs : NodeObs) : N :=
+  match op with
+  | NEv e _ =>
+    let co := match normalizeMessageEventAppend e with
+              | Some ne => if isMessageEventCacheOnlyEvent (e_etype ne) && negb (nil_b (no_proposals obs)) then 1 else 0
+              | None => if nil_b (no_proposals obs) then 0 else 1
+              end in
+    max_code co (max_code (finish_monitor g chan_hs cache e obs) (panic_monitor cache e obs))
+  | _ => if nil_b (no_proposals obs) && err_eqb (no_err obs) ENone then 0 else 1
+  end.
 
 Fixpoint node_monitor (g : DB) (chan_hs : list (bytes * N)) (cache : list CacheDump) (steps : list (NodeOp * NodeObs)) : N :=
   match steps with
@@ -448,20 +465,7 @@ Fixpoint node_monitor (g : DB) (chan_hs : list (bytes * N)) (cache : list CacheD
     | None => 1
     | Some g' =>
       if negb (dumps_are g' (no_dumps obs)) then 1 else
-      let f := match op with
-               | NEv e _ => max_code (finish_monitor g chan_hs cache e obs) (panic_monitor cache e obs)
-               | _ => match no_err obs with ENone => 0 | _ => 1 end
-               end in
-      (* cache-only events (open, delta, snapshot) are not durable: they propose nothing *)
-      let co := match op with
-                | NEv e _ => match normalizeMessageEventAppend e with
-                             | Some ne => if isMessageEventCacheOnlyEvent (e_etype ne) && negb (nil_b (no_proposals obs)) then 1 else 0
-                             | None => if nil_b (no_proposals obs) then 0 else 1
-                             end
-                | _ => if nil_b (no_proposals obs) then 0 else 1
-                end in
-      if (f =? 1) || (co =? 1) then 1 else
-      max_code f (node_monitor g' chan_hs (no_cache obs) r)
+      max_code (clause_monitor g chan_hs cache op obs) (node_monitor g' chan_hs (no_cache obs) r)
     end
   end.
 
